@@ -56,6 +56,5 @@ func doDump(p *Program, what string) {
 	}
 }
 
-func runFixtures(verif string) []string { return nil }
 
 func sortStrings(s []string) { sort.Strings(s) }
